@@ -81,12 +81,10 @@ SELECT_INTO_DIALECTS = {"ansi", "tsql", "postgres", "redshift", "greenplum"}
 SUPPORTED_KINDS = {"insert", "insert_cols", "ctas", "create_view", "select_into", "update", "merge", "copy", "bare", "insert_values", "create_like"}
 
 
-GENERIC = [("where.in_subquery_comma_join", "KF-32"), ("where.subquery_setop_paren", "KF-33"), ("from.mixed_comma_join", "KF-01"),
-           ("select.scalar_subquery", "KF-02"), ("having.subquery", "KF-03"), ("update.where_subquery", "KF-04"), ("update.set_subquery", "KF-04")]
+GENERIC = [("where.in_subquery_comma_join", "KF-32")]
 # per-dialect blind spots: "<dialect>:<mechanism>" -> finding id (the mechanism is a risk tag of the AST, or kind:target / kind:source / kind:unsupported)
 DIALECT = {"clickhouse:where.subquery": "KF-14a", "clickhouse:from.mixed_comma_join_any": "KF-14a", "exasol:create_view:target": "KF-14b",
-           "impala:ctas:unsupported": "KF-14c", "exasol:create_like:source": "KF-14d", "vertica:create_like:unsupported": "KF-14d",
-           "athena:setop.paren_later_branches": "KF-14h"}
+           "impala:ctas:unsupported": "KF-14c", "exasol:create_like:source": "KF-14d", "vertica:create_like:unsupported": "KF-14d"}
 
 
 def classify(stmt, dialect, exp, obs_read, obs_write, ds=None):
